@@ -36,7 +36,8 @@ def floors(tier):
     return {"cases": 20000, "cases_with_2plus_errors": 5000, "cases_context_depth2": 500, "invalid_schemas": 2000,
             "proxy_controls_touched": 500, "via_dollar_schema": 2000, "with_format_checker": 2000,
             "best_match_is_descendant": 500, "best_match_is_toplevel": 2000,
-            "reused_validator_sequences": 1000, "root_reference_objects": 500}
+            "reused_validator_sequences": 1000, "root_reference_objects": 500,
+            "fault_cases": 2000, "fault_after_first_error": 300, "fault_before_first_error": 300}
 
 
 # ------------------------------------------------------------------ recording proxies
@@ -175,6 +176,49 @@ class Cmp:
         except Exception as e:
             ctx.violation("entry-point-exception", case, "%s: %s (iter_errors itself finished normally)" % (type(e).__name__, str(e)[:150]))
 
+    def fault_case(self, d, schema, inst, tag, fc=None):
+        """Evaluations that end in an exception which is not a validation error (dangling reference, unknown type name,
+        a custom format function raising an undeclared exception), possibly AFTER some errors were yielded: what the
+        lazily consumed iter_errors does first is what is_valid and validate() must do too."""
+        ctx = self.ctx
+        cls = impl.CLS[d]
+        kw = {"format_checker": fc} if fc is not None else {}
+        case = {"draft": d, "schema": schema, "instance": inst, "fault": tag}
+
+        def outcome(fn):
+            try:
+                return ("value", fn())
+            except X.ValidationError as e:
+                return ("ValidationError", fp(e))
+            except Exception as e:
+                return ("exc", type(e).__name__)
+
+        def first():
+            for e in cls(schema, **kw).iter_errors(inst):
+                raise e
+            return None
+        o_first = outcome(first)
+        o_all = outcome(lambda: len(list(cls(schema, **kw).iter_errors(inst))))
+        if o_all[0] != "exc":
+            ctx.count("fault_cases_without_fault")
+            return
+        ctx.count("fault_cases")
+        ctx.case([d, schema, inst, "fault"], nontrivial=True)
+        o_validate = outcome(lambda: cls(schema, **kw).validate(inst))
+        o_valid = outcome(lambda: cls(schema, **kw).is_valid(inst))
+        if o_first[0] == "ValidationError":
+            ctx.count("fault_after_first_error")
+            if o_validate != o_first:
+                ctx.violation("validate", case, "iter_errors yields %r first (and fails later with %s); validate() gave %r" % (
+                    o_first[1][:4], o_all[1], o_validate[:2]))
+            if o_valid != ("value", False):
+                ctx.violation("is_valid", case, "iter_errors yields an error first; is_valid gave %r" % (o_valid,))
+        else:
+            ctx.count("fault_before_first_error")
+            if o_validate != o_first or o_valid != o_first:
+                ctx.violation("fault-agreement", case, "iter_errors fails with %r before yielding; validate() %r, is_valid %r" % (
+                    o_first, o_validate, o_valid))
+
     def invalid_schema_case(self, d, schema, inst, via_schema_kw):
         ctx = self.ctx
         cls = impl.CLS[d]
@@ -278,6 +322,39 @@ def reused_validator_sequence(ctx, d, arr, insts):
                 return
 
 
+class _Boom(LookupError):
+    pass
+
+
+def _boom(value):
+    raise _Boom("vf: undeclared exception from a custom format function")
+
+
+def fault_variants(ctx, C, rng, d, schema, insts):
+    """`schema` next to / before / after something whose evaluation raises a non-validation exception."""
+    faults = [("dangling-ref", {"$ref": "#/definitions/vf-missing"}), ("unknown-type", {"type": "vf-unknown-type"}),
+              ("unknown-host", {"$ref": "vfnone://nowhere.invalid/x.json"})]
+    fc = jsonschema.FormatChecker(formats=())
+    fc.checks("vf-boom")(_boom)
+    faults.append(("format-function-raises", {"format": "vf-boom"}))
+    tag, F = rng.choice(faults)
+    use_fc = fc if tag == "format-function-raises" else None
+    both = "allOf" if d >= 4 else "extends"
+    for inst in insts[:2]:
+        shapes = [({both: [schema, F]}, inst), ({both: [F, schema]}, inst),
+                  ({"items": [schema, F]}, [inst, "vf"]), ({"items": [F, schema]}, ["vf", inst]),
+                  ({"properties": {"a": schema, "b": F}}, {"a": inst, "b": "vf"}),
+                  ({"properties": {"b": F, "a": schema}}, {"b": "vf", "a": inst}),
+                  ({"properties": {"a": schema, "b": F}}, {"b": "vf", "a": inst})]
+        if isinstance(schema, dict) and "$ref" not in schema:
+            k, v = next(iter(F.items()))
+            if k not in schema:
+                shapes.append((dict(schema, **{k: v}), inst))
+                shapes.append((dict({k: v}, **schema), inst))
+        for S, I in rng.sample(shapes, 3):
+            C.fault_case(d, S, I, tag, fc=use_fc)
+
+
 def biased(rng, d):
     g = SchemaGen(rng, d, maxdepth=rng.choice([1, 2, 3]))
     s = g.schema()
@@ -322,6 +399,8 @@ def run(ctx):
         insts = ig.batch(4)
         for inst in insts:
             C.valid_schema_case(d, schema, inst, use_fc=rng.random() < 0.3, via_schema_kw=via)
+        if i % 2 == 0:
+            fault_variants(ctx, C, rng, d, schema, insts)
         C.proxy_control(d, schema, insts[0])
         if i % 3 == 0 and isinstance(schema, dict) and not via:
             from vf.gen import refs as R
@@ -344,7 +423,13 @@ def replay(ctx, rec):
     impl.quiet()
     c = rec["case"]
     C = Cmp(ctx)
-    if c.get("invalid_schema"):
+    if c.get("fault"):
+        fc = None
+        if c["fault"] == "format-function-raises":
+            fc = jsonschema.FormatChecker(formats=())
+            fc.checks("vf-boom")(_boom)
+        C.fault_case(c["draft"], c["schema"], c["instance"], c["fault"], fc=fc)
+    elif c.get("invalid_schema"):
         C.invalid_schema_case(c["draft"], c["schema"], c["instance"], c.get("via_$schema", False))
     else:
         C.valid_schema_case(c["draft"], c["schema"], c["instance"], c.get("format_checker", False), c.get("via_$schema", False))
